@@ -299,11 +299,16 @@ def _helpers(ctx):
                 ctx.ob("R-SHAPE", ex, "entry (i,j) -> rows[i][j]", bool(comp_ok),
                        "the variable is unpacked row by row without transposition" if comp_ok else
                        "the entrywise unpacking transposes or mis-sizes the variable", n)
-    if comp_ok is None:
-        # loop form: every store out[a, b] = src[c, d] must keep the index order (a mirrored store needs a conjugate)
+    if True:
+        # loop form (also when the comprehension form is still there for other inputs): every store out[a, b] = src[c, d], through
+        # every target of a chained assignment, must keep the index order (a mirrored store needs a conjugate)
         stores = []
-        for n in ast.walk(ex.node):
-            if isinstance(n, ast.Assign) and isinstance(n.targets[0], ast.Subscript) and isinstance(n.targets[0].slice, ast.Tuple) and len(n.targets[0].slice.elts) == 2:
+        for n0 in ast.walk(ex.node):
+            if not isinstance(n0, ast.Assign):
+                continue
+            for tg_ in n0.targets:
+              if isinstance(tg_, ast.Subscript) and isinstance(tg_.slice, ast.Tuple) and len(tg_.slice.elts) == 2:
+                n = ast.Assign(targets=[tg_], value=n0.value, lineno=n0.lineno, col_offset=n0.col_offset)
                 v = n.value
                 conj = False
                 while isinstance(v, ast.Call) and isinstance(v.func, (ast.Attribute, ast.Name)) and (getattr(v.func, "attr", "") in ("conj", "conjugate") or getattr(v.func, "id", "") == "conj" or
@@ -320,5 +325,5 @@ def _helpers(ctx):
                    f"{len(stores)} entry store(s) keep the (row, column) order" if not bad else
                    f"`{unparse(bad[0][0])}` copies entry ({', '.join(bad[0][2])}) to position ({', '.join(bad[0][1])}) without conjugation: a Hermitian variable is "
                    "unpacked with the wrong imaginary parts below the diagonal", bad[0][0])
-        else:
+        elif comp_ok is None:
             ctx.ob("R-SHAPE", ex, "entry (i,j) -> rows[i][j]", None, "unpacking not recognised", required=False)
